@@ -23,7 +23,7 @@ from props import brokerclient_lib as L
 THEOREMS_FRAMING = ["C06_reassembly", "C06_partial_frame", "C06_chunking_invariance", "C06_length_limit",
                     "C06_length_limit_strict_refuted", "C06_receiver_total"]
 THEOREMS_BOOT = ["C06_bootstrap_pairing", "C06_bootstrap_unknown_id"]
-THEOREMS_BC = ["C06_success_from_received_frame", "C06_client_chunking", "C06_client_chunking_two", "C06_rxbuf_stays_irreducible",
+THEOREMS_BC = ["C06_limit_closes", "C06_outcome_cause", "C06_frame_instance_refuted", "C06_success_from_received_frame", "C06_client_chunking", "C06_client_chunking_two", "C06_rxbuf_stays_irreducible",
                "C06_frame_refines_spec", "C06_no_crosstalk_refinement", "C06_spec_other_ids_untouched", "C06_reachable", "C06_exactly_once", "C06_nothing_after_fired", "C06_own_response", "C06_dlog_is_make_log",
                "C06_no_crosstalk", "C06_own_frame", "C06_data_untouched"]
 WHICH = ("C06",)
@@ -122,6 +122,13 @@ def run(ck):
     L.reentrant_part(ck, rnd, 500 * scale, THEOREMS_BC)
     L.tree_part(ck, rnd, 400 * scale, ["C06_exactly_once_reentrant", "C06_nothing_after_fired_reentrant"])
 
+    # ---- sendString raising (brokerclient.py:370-373): outside the model, probed on the real code
+    sr = L.probe_send_raises()
+    ck.cov["send_raises_probe"] = sr or "as expected: entry dropped, Deferred failed once with the exception, id free again, close() works"
+    if sr:
+        ck.violation({"kind": "probe: makeRequest whose sendString raises (str payload) on a live connection", "theorem": "C06_exactly_once",
+                      "message": "; ".join(sr), "replay_op": "send-raises"})
+
     # ---- exhaustive small scope
     L.exhaustive(ck, 7 if thorough else 6, "whole", WHICH, THEOREMS_BC, rnd)
     for hk in sorted(L.HOOK_TABLES):
@@ -142,10 +149,11 @@ def run(ck):
     ck.assumptions += [
         "hand-written Gallina models: Model/Framing.v stands for twisted.protocols.basic.IntNStringReceiver.dataReceived/sendString as configured by afkak/_protocol.py:32-60, KafkaBootstrapProtocol (_protocol.py:63-140) and KafkaCodec.get_response_correlation_id; Model/BrokerClient.v for afkak/brokerclient.py:44-79,148-462. The tie is this run's differential correspondence, not a proof",
         "Twisted (Deferred fire-once/cancel semantics, Clock, IntNStringReceiver) is exercised by the correspondence, not verified; Deferred semantics are summarised in the model as a fire-once cell (AlreadyCalledError = OErr, proved unreachable)",
-        "request payload bytes are outside the model (a request is identified by correlation id and handle); sendString/transport.write are assumed not to raise (requests < 4 GiB), so brokerclient.py:370-373 is not modelled",
-        "user callbacks that re-enter the client synchronously are outside the model's alphabet: for callbacks of reply-expecting requests (fired in tail position of handleResponse) this run checks on the real code that the re-entrant call equals the same call as the next event (reentrant_part); the callback of a NO-REPLY request fires in the middle of _sendQueued: close()/cancel() from it are inside the extended model Model/BrokerClientHook.v (C06_exactly_once_reentrant, C06_nothing_after_fired_reentrant; correspondence run here and by C10, finding F-C10-1 repaired by 7c12cf4); endpoints whose connect() completes synchronously are checked the same way by C10 (sync_connect_part)",
+        "request payload bytes are outside the model (a request is identified by correlation id and handle); sendString/transport.write are assumed not to raise, so brokerclient.py:370-373 is not modelled; that path is exercised on the real code by one fixed probe (a str payload: entry dropped, Deferred fails once, id free, close() works), nothing more",
+        "user-supplied code that raises (a retryPolicy raising inside ebConnect leaves self.connector a fired Deferred and the client never reconnects) is outside the model and not generated",
+        "user callbacks/errbacks that re-enter the client synchronously (cancel / makeRequest / disconnect / close, on success and on failure): inside the two loops that fire Deferreds (_sendQueued, close()) they are INSIDE the extended model Model/BrokerClientHook.v (IConnOk / IClose interleavings; C06_exactly_once_reentrant, C06_nothing_after_fired_reentrant) and its correspondence (tree_part, hook enumerations); in tail positions the driver inserts the call as the next event and checks equality on the real code (not proved). Where user code runs inside close()'s loop the outcome depends on the order in which close() fails the requests, which the property does not fix: such a case is compared with the model only if no tombstone existed and the implementation failed newest first (differences in the other cases are counted, not reported), and is always subject to the order-independent monitors. Endpoints whose connect() completes synchronously are checked by C10 (sync_connect_part)",
         "the paused flag of IntNStringReceiver and the `recvd` compatibility attribute are not modelled (afkak never sets them)",
-        "events the environment cannot produce (no transport / attempt / timer / Deferred to act on) are no-ops in the model; the driver checks the implementation side produces no output for them either",
+        "events the environment cannot produce (no transport / attempt / Deferred to act on) are no-ops in the model and CANNOT be applied to the implementation (there is no object to act on); the generator emits them only to exercise the model's enabledness. The one exception is a timer event with no timer armed: the driver then lets an hour of virtual time pass and requires that nothing happens. Everything physically possible is applied: cancel of an already fired Deferred, makeRequest after close(), data after loseConnection() was requested, a second close()",
         "extraction: ExtrOcamlBasic only; Z/positive/nat stay Coq datatypes; sample re-evaluated in Coq by vm_compute (the exhaustive enumeration is compared against the extracted runner only)",
     ]
     ck.cov["trusted_base"] += ["correspondence harness harness/props/C06.py + props/brokerclient_lib.py + drv_brokerclient.py + drv_framing.py + simnet.py + vlib.py",
@@ -160,6 +168,10 @@ def replay(rp):
         return L.replay_hook(rp)
     if op == "bc-tree":
         return L.replay_tree(rp)
+    if op == "send-raises":
+        sr = L.probe_send_raises()
+        print("probe now:", sr or "as expected")
+        return 1 if sr else 0
     if op == "rx":
         chunks = [bytes(c) for c in rp["chunks"]]
         tr, calls = F.impl_receiver(chunks)
